@@ -68,30 +68,67 @@ func (v *fnVC) snapMem(env *Env, m string) T {
 }
 
 func (v *fnVC) resolveType(s string, pkg *types.Package) types.Type {
-	switch s {
-	case "int":
-		return types.Typ[types.Int]
-	case "int64":
-		return types.Typ[types.Int64]
-	case "uint64":
-		return types.Typ[types.Uint64]
-	case "string":
-		return types.Typ[types.String]
-	case "bool":
-		return types.Typ[types.Bool]
-	case "byte":
-		return types.Typ[types.Uint8]
-	case "float64":
-		return types.Typ[types.Float64]
+	if strings.HasPrefix(s, "*") {
+		return types.NewPointer(v.resolveType(s[1:], pkg))
+	}
+	if strings.HasPrefix(s, "[]") {
+		return types.NewSlice(v.resolveType(s[2:], pkg))
+	}
+	if s == "interface{}" || s == "any" {
+		return types.NewInterfaceType(nil, nil)
+	}
+	if strings.HasPrefix(s, "map[") {
+		d := 0
+		for i := 3; i < len(s); i++ {
+			if s[i] == '[' {
+				d++
+			} else if s[i] == ']' {
+				d--
+				if d == 0 {
+					return types.NewMap(v.resolveType(s[4:i], pkg), v.resolveType(s[i+1:], pkg))
+				}
+			}
+		}
+	}
+	if obj, ok := types.Universe.Lookup(s).(*types.TypeName); ok {
+		return obj.Type()
+	}
+	if i := strings.Index(s, "."); i > 0 {
+		// qualified name: imports are file-scoped, so look the package up by name among the loaded ones
+		pn, tn := s[:i], s[i+1:]
+		for _, p := range v.e.tpkgs {
+			if p.Name() == pn {
+				if obj, ok := p.Scope().Lookup(tn).(*types.TypeName); ok {
+					return obj.Type()
+				}
+			}
+		}
+		panic(fmt.Sprintf("cannot resolve type %q", s))
+	}
+	if pkg != nil {
+		if obj, ok := pkg.Scope().Lookup(s).(*types.TypeName); ok {
+			return obj.Type()
+		}
 	}
 	tv, err := types.Eval(v.e.prog.Fset, pkg, token.NoPos, s)
 	if err != nil {
-		panic(fmt.Sprintf("cannot resolve type %q in %s: %v", s, pkg.Path(), err))
+		panic(fmt.Sprintf("cannot resolve type %q: %v", s, err))
 	}
 	return tv.Type
 }
 
 func (v *fnVC) lit(val string, ty types.Type) T {
+	if v.P.bv && isFloat(ty) {
+		d := val
+		if strings.HasPrefix(d, "0x") {
+			d = hexToDec(d)
+		}
+		fsort := "11 53"
+		if b, ok := ty.Underlying().(*types.Basic); ok && b.Kind() == types.Float32 {
+			fsort = "8 24"
+		}
+		return fmt.Sprintf("((_ to_fp %s) RNE %s.0)", fsort, d)
+	}
 	if v.P.bv {
 		if b, ok := ty.Underlying().(*types.Basic); ok {
 			if bits, _, ok := intInfo(b); ok {
@@ -188,6 +225,9 @@ func (v *fnVC) tr(e Expr, env *Env) (T, types.Type) {
 				return intLit(int64(v.P.tag(tn.Type()))), types.Typ[types.Int]
 			}
 		}
+		if tn, ok := types.Universe.Lookup(x.Name).(*types.TypeName); ok {
+			return intLit(int64(v.P.tag(tn.Type()))), types.Typ[types.Int]
+		}
 		if env.fallback != nil {
 			if b, ok := env.fallback(x.Name); ok {
 				return b.t, b.ty
@@ -222,8 +262,10 @@ func (v *fnVC) tr(e Expr, env *Env) (T, types.Type) {
 			return sel(a, i), u.Elem()
 		case *types.Map:
 			k, _ := v.trAs(x.I, env, u.Key())
-			_, mv, _, _ := v.mapMems(u)
-			return sel(sel(v.snapMem(env, mv), a), k), u.Elem()
+			md, mv, _, _ := v.mapMems(u)
+			// Go semantics: the zero value for a missing key (and for a nil map)
+			in := and(not(eq(a, "0")), sel(sel(v.snapMem(env, md), a), k))
+			return ite(in, sel(sel(v.snapMem(env, mv), a), k), v.P.zero(u.Elem())), u.Elem()
 		}
 		panic("index on " + aty.String())
 	case *CallE:
@@ -305,6 +347,23 @@ func (v *fnVC) trBinary(x *Binary, env *Env) (T, types.Type) {
 			return implies(a, b), boolT
 		}
 		return eq(a, b), boolT
+	}
+	// typeof(x) == T : the right-hand side is a type expression
+	if x.Op == "==" || x.Op == "!=" {
+		tcall, texpr := x.X, x.Y
+		if c, ok := texpr.(*CallE); ok && c.Fun == "typeof" {
+			tcall, texpr = texpr, tcall
+		}
+		if c, ok := tcall.(*CallE); ok && c.Fun == "typeof" {
+			if ts := typeExprString(texpr); ts != "" {
+				a, _ := v.tr(c.Args[0], env)
+				r := eq(app("itag", a), intLit(int64(v.P.tag(v.resolveType(ts, env.pkg)))))
+				if x.Op == "!=" {
+					r = not(r)
+				}
+				return r, boolT
+			}
+		}
 	}
 	// typed operands: translate the non-literal side first
 	var a, b T
@@ -614,6 +673,20 @@ func (v *fnVC) trCall(x *CallE, env *Env) (T, types.Type) {
 			return app("f64_isInf", a), types.Typ[types.Bool]
 		}
 		return app("fp.isInfinite", a), types.Typ[types.Bool]
+	case "same": // structural equality (for floats: identical value, NaN equals NaN)
+		a, _ := v.tr(x.Args[0], env)
+		b, _ := v.tr(x.Args[1], env)
+		return eq(a, b), types.Typ[types.Bool]
+	case "f2i64", "f2u64": // Go float64 -> int64/uint64 conversion of an in-range value: truncation toward zero
+		a, _ := v.tr(x.Args[0], env)
+		if !v.P.bv {
+			v.P.add("f2i", "(declare-fun f2i (F64) Int)")
+			return app("f2i", a), types.Typ[types.Int64]
+		}
+		if x.Fun == "f2i64" {
+			return fmt.Sprintf("((_ fp.to_sbv 64) RTZ %s)", a), types.Typ[types.Int64]
+		}
+		return fmt.Sprintf("((_ fp.to_ubv 64) RTZ %s)", a), types.Typ[types.Uint64]
 	case "truncRTZ":
 		a, ty := v.tr(x.Args[0], env)
 		return app("fp.roundToIntegral RTZ", a), ty
@@ -668,6 +741,22 @@ func (v *fnVC) trCall(x *CallE, env *Env) (T, types.Type) {
 	case "visited": // visited(k): key already produced by the map range of this loop
 		k, _ := v.tr(x.Args[0], env)
 		return sel(sel(v.snapMem(env, visMem), "1"), k), types.Typ[types.Bool]
+	case "dyn0", "dyn1", "dyn2": // dynN(f, rtype, args...): N-th result of calling the function value f on args
+		n := int(x.Fun[3] - '0')
+		f, _ := v.tr(x.Args[0], env)
+		rts := typeExprString(x.Args[1])
+		rt := v.resolveType(rts, env.pkg)
+		as := []T{f}
+		sorts := []string{"Int"}
+		for _, a := range x.Args[2:] {
+			t, ty := v.tr(a, env)
+			as = append(as, t)
+			sorts = append(sorts, v.P.sortOf(ty))
+		}
+		return app(v.dynFn(n, sorts, v.P.sortOf(rt)), as...), rt
+	case "asmap": // asmap(x): the map[string]interface{} held by the interface value x
+		a, _ := v.tr(x.Args[0], env)
+		return app("ipay", a), types.NewMap(types.Typ[types.String], types.NewInterfaceType(nil, nil))
 	case "base": // backing array of a slice
 		a, _ := v.tr(x.Args[0], env)
 		return app("sbase", a), types.Typ[types.Int]
@@ -705,4 +794,19 @@ func (v *fnVC) trCall(x *CallE, env *Env) (T, types.Type) {
 	name := "gh_" + g.Name
 	v.P.add(name, fmt.Sprintf("(declare-fun %s (%s) %s)", name, strings.Join(sorts, " "), v.P.sortOf(rt)))
 	return app(name, args...), rt
+}
+
+// typeExprString renders a contract expression that denotes a type (T, *T, pkg.T) as a type string.
+func typeExprString(e Expr) string {
+	switch x := e.(type) {
+	case *Ident:
+		return x.Name
+	case *TypeLit:
+		return x.Name
+	case *Select:
+		if id, ok := x.X.(*Ident); ok {
+			return id.Name + "." + x.Field
+		}
+	}
+	return ""
 }
